@@ -565,14 +565,18 @@ theorem ldf_sendRequest_ext {σ} (hook : ObjHook σ) (w : Cli.World σ) (rs : Re
     generalize sendUnit hook w seq (Cl.multiMsg (reqs.map fun q => Cl.readMsg q.path q.elements)) = res at this ⊢
     obtain ⟨w1, r⟩ := res
     dsimp only at this ⊢
-    cases r <;> exact this
+    cases r with
+    | error e => exact this
+    | ok raw => dsimp only; split <;> exact this
   | multiWrite seq reqs =>
     have := ldf_sendUnit_ext hook w seq _ _ hfit
     rw [sendRequest]
     generalize sendUnit hook w seq (Cl.multiMsg (reqs.map fun q => Cl.writeMsg q.path q.typeBytes q.elements q.value)) = res at this ⊢
     obtain ⟨w1, r⟩ := res
     dsimp only at this ⊢
-    cases r <;> exact this
+    cases r with
+    | error e => exact this
+    | ok raw => dsimp only; split <;> exact this
 
 theorem ldf_sendRequests_ext {σ} (hook : ObjHook σ) (C : Nat) (reqs : List Request) :
     ∀ (w : Cli.World σ) (rs : Results), w.drv.connectionSize = C → (∀ q ∈ reqs, ldf_SendFit C q) →
